@@ -981,6 +981,10 @@ static int ec_glob(char *loc, char *cmd, char *arg, char *txt)
 	char *pat;
 	char *s = arg;
 	int i;
+	if (xgdep >= 7) {	/* the marks of a line are the bits of a char */
+		ex_show("global commands nested too deep");
+		return 1;
+	}
 	if (!loc[0] && !xgdep)
 		strcpy(loc, "%");
 	if (ex_region(loc, &beg, &end))
